@@ -14,7 +14,8 @@ Inductive api_call : Set := ApiNew | ApiOnline | ApiOffline | ApiPassive.
 (* what the implementation shows after an event *)
 Record view : Set := mkView {
   v_conn : conn_state; v_in_ring : bool; v_kind : state_kind;
-  v_ns : Z; v_ps : Z; v_las_valid : bool; v_active : list Z }.
+  v_ns : Z; v_ps : Z; v_las_valid : bool; v_active : list Z;
+  v_gap_due : bool   (* GAP cursor of the station is in its polling phase (GapState::DoPoll), through the hook *) }.
 
 Record pstep : Set := mkPStep {
   s_now : Z; s_busy : bool; s_rx : bytes;
@@ -39,8 +40,9 @@ Inductive rule : Set :=
 (* C12 *)
 | R12_gap_poll_outside_gap | R12_two_gap_polls_per_visit | R12_reply_without_request | R12_reply_untruthful
 | R12_reply_from_wrong_state
+| R12_found_not_successor | R12_found_not_next_token | R12_successor_changed_without_ready_reply | R12_sweep_bound
 (* C13 *)
-| R13_low_prio_after_hold_time | R13_second_cycle_after_hold_time
+| R13_low_prio_after_hold_time | R13_second_cycle_after_hold_time | R13_high_prio_inside_hold_time
 (* C15 *)
 | R15_transmit_without_token | R15_transmit_while_outstanding | R15_round_robin | R15_reply_not_requested
 | R15_reply_invalid | R15_timeout_not_requested | R15_await_without_request.
@@ -54,8 +56,9 @@ Definition rule_prop (r : rule) : pid :=
   | R11_accept_while_listening | R11_accept_without_token | R11_accept_from_stranger
   | R11_retry_too_early | R11_too_many_retries | R11_removed_too_early | R11_heard_but_supervising => PC11
   | R12_gap_poll_outside_gap | R12_two_gap_polls_per_visit | R12_reply_without_request | R12_reply_untruthful
-  | R12_reply_from_wrong_state => PC12
-  | R13_low_prio_after_hold_time | R13_second_cycle_after_hold_time => PC13
+  | R12_reply_from_wrong_state
+  | R12_found_not_successor | R12_found_not_next_token | R12_successor_changed_without_ready_reply | R12_sweep_bound => PC12
+  | R13_low_prio_after_hold_time | R13_second_cycle_after_hold_time | R13_high_prio_inside_hold_time => PC13
   | R15_transmit_without_token | R15_transmit_while_outstanding | R15_round_robin | R15_reply_not_requested
   | R15_reply_invalid | R15_timeout_not_requested | R15_await_without_request => PC15
   end.
@@ -85,6 +88,7 @@ Definition mon_reset (v : view) (left : nat) : mon :=
 (* constants of the PROPERTY texts (not the regenerated ones of the code) *)
 Definition prop_sync_bits : Z := 33.        (* C01: synchronisation pause *)
 Definition prop_bits_per_byte : Z := 11.    (* one UART character *)
+Definition prop_gap_reserve_extra_bits : Z := 100.   (* C13_hold_rule: reserve Tslot + 100 bit when a GAP poll is due *)
 
 Definition kind_in (k : state_kind) (l : list state_kind) : bool := existsb (state_kind_eqb k) l.
 
@@ -353,25 +357,141 @@ Definition mon_poll (p : params) (napps : nat) (m : mon) (s : pstep) : mon * lis
     else mkMon post left lba' quiet cand pass gap_polls req out (m_turn m2) (m_prev_tt m) (m_tt m) rounds start in
   (m3, e01 ++ e06 ++ e11a ++ e11b ++ e12a ++ e12b ++ ecalls ++ e15).
 
+(* ------------------------------------------------------------------------------------------ *)
+(* Second group of monitors (state `mon2`): C12 found-becomes-successor and sweep bound, C13 with the
+   exact end of the hold time.  They read the first group's state `mon` of BEFORE the poll. *)
+
+Record mon2 : Set := mkMon2 {
+  g_wait : option Z;      (* address of the GAP request whose reply is awaited *)
+  g_expect : option Z;    (* found successor: must be the destination of the next token transmission *)
+  g_visit : nat;          (* completed token visits (first token transmission of each pass) *)
+  g_last : list nat;      (* per address 0..125: visit count at its last GAP request / window restart *)
+  h_end : Z               (* C13: end of the hold time of the current visit *)
+}.
+
+Definition addr_count : nat := 126.
+Definition mon2_reset : mon2 := mkMon2 None None 0 (repeat 0%nat addr_count) 0.
+
+Fixpoint set_nth_nat (l : list nat) (i : nat) (v : nat) : list nat :=
+  match l, i with
+  | [], _ => []
+  | _ :: t, O => v :: t
+  | x :: t, S j => x :: set_nth_nat t j v
+  end.
+
+(* the addresses of the own GAP: strictly between TS and NS cyclically, below HSA *)
+Definition gap_addrs (p : params) (ns : Z) : list Z :=
+  filter (fun a => in_gapb (p_address p) ns a && (a <? p_hsa p))
+         (map Z.of_nat (seq 0 addr_count)).
+
+Definition is_ready_master (st : resp_state) : bool :=
+  (resp_state_to_byte st =? resp_state_to_byte RsMasterWithoutToken) ||
+  (resp_state_to_byte st =? resp_state_to_byte RsMasterInRing).
+
+Definition mon_poll2 (p : params) (m : mon) (g : mon2) (s : pstep) : mon2 * list rule :=
+  let ts := p_address p in
+  let now := s_now s in
+  let pre := m_view m in
+  let post := s_view s in
+  let k0 := v_kind pre in
+  let k1 := v_kind post in
+  let txt := match s_tx s with Some w => decode_one w | None => None end in
+  let gap_poll :=
+    match txt with
+    | Some (TData h _) =>
+        if is_fdl_status_request h && (h_sa h =? ts) && negb (app_sent (s_calls s)) then Some (h_da h) else None
+    | _ => None
+    end in
+  let token_tx := match txt with Some (TToken da sa) => if sa =? ts then Some da else None | _ => None end in
+  (* ---- C12: a polled station that reports to be a ready master becomes the successor ---- *)
+  let first := match decode (s_rx s) with
+               | Ok (Accept t n) => if Nat.eqb n (s_consumed s) then Some t else None
+               | _ => None
+               end in
+  let awaiting := kind_in k0 [KAwaitStatusResponse; KClaimToken] in
+  let ready_reply :=
+    awaiting &&
+    match g_wait g, first with
+    | Some a, Some (TData h _) =>
+        match h_fc h with
+        | FcResponse st status =>
+            (h_sa h =? a) && (h_da h =? ts) && (resp_status_to_byte status =? resp_status_to_byte StOk) &&
+            is_ready_master st
+        | _ => false
+        end
+    | _, _ => false
+    end in
+  let e_found :=
+    if ready_reply
+    then check (match g_wait g with Some a => v_ns post =? a | None => true end) R12_found_not_successor
+    else if awaiting then check (v_ns post =? v_ns pre) R12_successor_changed_without_ready_reply
+    else [] in
+  let e_tok := match token_tx, g_expect g with
+               | Some da, Some a => check (da =? a) R12_found_not_next_token
+               | _, _ => []
+               end in
+  let expect :=
+    match token_tx with
+    | Some _ => None
+    | None => if kind_in k1 [KActiveIdle; KListenToken; KOffline] then None
+              else if ready_reply then g_wait g else g_expect g
+    end in
+  let wait := match gap_poll with
+              | Some da => Some da
+              | None => if kind_in k1 [KAwaitStatusResponse; KClaimToken] then g_wait g else None
+              end in
+  (* ---- C12: sweep bound ---- *)
+  let visit_tx := match token_tx with Some _ => kind_in k0 [KPassToken; KAwaitStatusResponse] | None => false end in
+  let claim_tx := match token_tx with Some da => (da =? ts) && kind_in k0 [KListenToken; KActiveIdle; KClaimToken] | None => false end in
+  let restart := negb (v_ns post =? v_ns pre) || claim_tx || kind_in k1 [KListenToken; KOffline] in
+  let last1 := match gap_poll with
+               | Some da => if (0 <=? da) && (da <? 126) then set_nth_nat (g_last g) (Z.to_nat da) (g_visit g) else g_last g
+               | None => g_last g
+               end in
+  let last2 := if restart then repeat (g_visit g) addr_count else last1 in
+  let visit := if visit_tx then S (g_visit g) else g_visit g in
+  let e_sweep :=
+    if visit_tx && negb restart
+    then (let gap := gap_addrs p (v_ns post) in
+          let bound := (length gap + Z.to_nat (p_gap_wait p) + 2)%nat in
+          check (forallb (fun a => Nat.leb (visit - nth (Z.to_nat a) last2 0%nat) bound) gap) R12_sweep_bound)
+    else [] in
+  (* ---- C13: exact end of the hold time ---- *)
+  let e13 := flat_map (fun c => match c with
+                                | CallTransmit _ hp _ =>
+                                    if hp then check (h_end g <=? now) R13_high_prio_inside_hold_time
+                                    else check (now <? h_end g) R13_low_prio_after_hold_time
+                                | _ => []
+                                end) (s_calls s) in
+  let new_visit := state_kind_eqb k1 KUseToken && negb (kind_in k0 [KUseToken; KAwaitDataResponse]) in
+  let hend := if new_visit
+              then m_tt m + token_rotation_time p -
+                   (if v_gap_due post then p_bits_to_time p (p_slot_bits p + prop_gap_reserve_extra_bits) else 0)
+              else h_end g in
+  (mkMon2 wait expect visit last2 hend, e_found ++ e_tok ++ e_sweep ++ e13).
+
 (* ---- whole transcript ---- *)
 (* accumulator: monitor state, the API call that was the previous event (if any), violations *)
-Definition mon_event (p : params) (napps : nat) (acc : option mon * option api_call * list rule) (e : event)
-  : option mon * option api_call * list rule :=
+Definition mon_event (p : params) (napps : nat) (acc : option (mon * mon2) * option api_call * list rule) (e : event)
+  : option (mon * mon2) * option api_call * list rule :=
   let '(om, last_api, _) := acc in
   let errs : list rule := [] in
   match e with
   | EApi a v =>
-      let left := match om with Some m => m_left m | None => 0%nat end in
+      let left := match om with Some (m, _) => m_left m | None => 0%nat end in
       match a, om with
-      | ApiNew, _ | ApiOffline, _ | _, None => (Some (mon_reset v left), Some a, errs)
-      | ApiPassive, Some m => (Some m, Some a, errs)
-      | ApiOnline, Some m =>
+      | ApiNew, _ | ApiOffline, _ | _, None => (Some (mon_reset v left, mon2_reset), Some a, errs)
+      | ApiPassive, Some mg => (Some mg, Some a, errs)
+      | ApiOnline, Some (m, g) =>
           (Some (mkMon v (m_left m) (m_lba m) (m_quiet m) (m_cand m) (m_pass m) (m_gap_polls m) (m_req m)
-                       (m_out m) (m_turn m) (m_prev_tt m) (m_tt m) (m_rounds m) (m_start m)), Some a, errs)
+                       (m_out m) (m_turn m) (m_prev_tt m) (m_tt m) (m_rounds m) (m_start m), g), Some a, errs)
       end
   | EPoll s =>
       match om with
-      | Some m => let (m', e') := mon_poll p napps m s in (Some m', None, errs ++ e')
+      | Some (m, g) =>
+          let (m', e') := mon_poll p napps m s in
+          let (g', e2) := mon_poll2 p m g s in
+          (Some (m', g'), None, errs ++ e' ++ e2)
       | None => (om, None, errs)
       end
   | EPanic =>
@@ -384,7 +504,7 @@ Definition mon_event (p : params) (napps : nat) (acc : option mon * option api_c
 
 (* The properties quantify over the parameters the builder can produce; other parameter sets are
    only compared with the model, not monitored. *)
-Fixpoint monitor_from (p : params) (napps : nat) (i : nat) (om : option mon) (last_api : option api_call)
+Fixpoint monitor_from (p : params) (napps : nat) (i : nat) (om : option (mon * mon2)) (last_api : option api_call)
          (events : list event) : list (nat * rule) :=
   match events with
   | [] => []
